@@ -89,6 +89,8 @@ def dense_matrix(spec):
             M = M * 0
     elif sym == "zero":
         M = np.zeros((n, n))
+    elif sym == "diagm":  # a diagonal matrix (given to cola as an unstructured operator)
+        M = np.diag(rnd(n) + 3.0)
     elif sym == "tril":
         M = np.tril(rnd(n, n)) + 2 * np.eye(n)
     elif sym == "triu":
